@@ -219,7 +219,16 @@ def _t2t_case(rng):
 
 def gen(rng, tier):
     n = 500 if tier == 'quick' else 20000
-    return [_case(rng) for _ in range(n)] + [_t2t_case(rng) for _ in range(n // 8)] + [_intcoord_case(rng) for _ in range(n // 20)]
+    out = [_case(rng) for _ in range(n)] + [_t2t_case(rng) for _ in range(n // 8)] + [_intcoord_case(rng) for _ in range(n // 20)]
+    # on every run: file times and queries that all fall on the first of a month (or on 1 January) at 00:00 - months and
+    # years are not equally long, the nearest time is the one fewer DAYS away (minutes since 2001-03-04)
+    day = 1440
+    out.append(dict(kind='t2t', ttype='nearest', mins=[28 * day, 58 * day, 119 * day], qs=[89 * day, 28 * day, 58 * day], other=False))
+    out.append(dict(kind='t2t', ttype='nearest', mins=[1033 * day, 2494 * day, 303 * day][:2], qs=[1764 * day, 1033 * day], other=False))
+    for c in out:
+        if str(c.get('edges', 'none'))[:2] in ('e1', 'b2') and not c.get('prior') and rng.random() < 0.2:
+            c['stale'] = True
+    return out
 
 
 def _fill(s):
@@ -241,14 +250,24 @@ def _mkfile(case):
         v.units = '%s since %s' % (case.get('tunit', 'hours'), ref)
     e = case['edges']
     b, ed = None, None
+    # stale: the coordinate's `bounds` attribute names a variable of its own (x_edges); a variable with one of the
+    # conventional names is there too and describes other cells (an older, coarser grid): the attribute decides
+    stale = bool(case.get('stale'))
     if e.startswith('e1:'):
         ed = [(float(Fraction(x)) - off) / per for x in e[3:].split(',')]
         f.createDimension('xe', len(ed))
-        b = f.createVariable('x_bounds', 'd', ('xe',))
+        b = f.createVariable('x_edges' if stale else 'x_bounds', 'd', ('xe',))
     elif e.startswith('b2:'):
         ed = [[(float(Fraction(x)) - off) / per for x in r.split(',')] for r in e[3:].split(';')]
         f.createDimension('nv', 2)
-        b = f.createVariable('x_bnds', 'd', ('x', 'nv'))
+        b = f.createVariable('x_edges' if stale else 'x_bnds', 'd', ('x', 'nv'))
+    if stale and b is not None:
+        v.bounds = 'x_edges'
+        flat = np.array(ed, dtype='d').ravel()
+        lo_, hi_ = float(flat.min()), float(flat.max())
+        f.createDimension('xs', 3)
+        sv = f.createVariable('x_bnds', 'd', ('xs',))
+        sv[:] = [lo_ - 3., (lo_ + hi_) / 2. + 0.3, hi_ + 5.] if flat[0] <= flat[-1] else [hi_ + 5., (lo_ + hi_) / 2. + 0.3, lo_ - 3.]
     final = [(x - off) / per for x in c]
     if case.get('prior'):
         other = np.array(final)[::-1] * 3 + 1 if len(c) > 1 else np.array(final) + 5
